@@ -33,6 +33,7 @@ import (
 	"github.com/kubewharf/kubebrain/pkg/backend/tso"
 	"github.com/kubewharf/kubebrain/pkg/metrics"
 	"github.com/kubewharf/kubebrain/pkg/storage"
+	"github.com/kubewharf/kubebrain/pkg/verifhook"
 )
 
 const (
@@ -188,6 +189,7 @@ func NewBackend(kv storage.KvStorage, config Config, metricCli metrics.Metrics) 
 var ErrRevisionDriftBack = errors.New("revision drift back")
 
 func (b *backend) deal(prevRevision uint64) (uint64, error) {
+	verifhook.Yield("deal", prevRevision, 0)
 	rev, err := b.tso.Deal()
 	if err != nil {
 		return 0, err
@@ -212,6 +214,7 @@ func (b *backend) collectStorageWriteEvents() {
 	for {
 		cnt := 0
 		for cnt < eventBatchSize {
+			verifhook.Yield("seq.poll", uint64(cnt), 0)
 			idx := (b.GetCurrentRevision() + 1) % watchersChanCapacity
 			watchEvent, ok := b.watchEventsRingBuffer[idx].Load().(*common.WatchEvent)
 			if !ok || watchEvent == nil {
@@ -232,10 +235,12 @@ func (b *backend) collectStorageWriteEvents() {
 					b.asyncFifoRetry.Append(watchEvent)
 				}
 				b.SetCurrentRevision(watchEvent.Revision)
+				verifhook.Yield("seq.committed", watchEvent.Revision, 0)
 				continue
 			}
 
 			b.SetCurrentRevision(watchEvent.Revision)
+			verifhook.Yield("seq.committed", watchEvent.Revision, 1)
 
 			e := &proto.Event{
 				Type:     watchEvent.ResourceVerb,
@@ -258,12 +263,14 @@ func (b *backend) collectStorageWriteEvents() {
 			events[cnt] = e
 			cnt++
 			// set watch cache
+			verifhook.Yield("seq.cacheadd", e.Revision, 0)
 			b.watchCache.Add(e)
 		}
 
 		if cnt > 0 {
 			evs := make([]*proto.Event, cnt)
 			copy(evs, events[:cnt])
+			verifhook.Yield("seq.flush", uint64(cnt), evs[0].Revision)
 			b.watchChan <- evs
 		}
 	}
